@@ -636,7 +636,11 @@ def judge_rest(pw, c, o, m_ok, m_carries):
         res.append(("violation", "no-answer", "%s: the handler did not answer (%s)" % (where, o.get("error"))))
         return res
     if not F["carries_any"]:
-        if accepted:
+        if accepted and status in (401, 403):
+            res.append(("violation", "reject-is-401-empty",
+                        "%s lacks the password and was answered HTTP %s with body %s instead of 401 with an empty body (not the gate's rejection: the request got further, or the answer says more than 'unauthorized')" % (
+                            where, status, show(body, 80) or "(empty)")))
+        elif accepted:
             res.append(("violation", "accepted-without-password",
                         "%s was let through the password gate (HTTP %s, body %s) although no Authorization value carries the configured password %s; Authorization = %s" % (
                             where, status, show(body, 80), show(pw, 40), [show(v, 80) for v in F["auth_values"]] or "absent")))
@@ -822,7 +826,9 @@ def judge_tls(cfg, o, m_dec, m_start, model):
             for p in o.get("password_probes") or []:
                 # the gate's own rejection; a 401 WITH a body comes from behind the gate (session cookie handling)
                 rej = p["outcome"] == "Unauthenticated" or (p["outcome"] == "401" and p.get("body_empty"))
-                if p["cred"] in ("none", "wrong"):
+                if p["outcome"].startswith("error"):
+                    res.append(("violation", "no-answer", "[%s] %s %s over %s with %s password was not answered: %s" % (name, p["proto"], p["route"], p["mode"], p["cred"], p["outcome"][:160])))
+                elif p["cred"] in ("none", "wrong"):
                     if not rej:
                         res.append(("violation", "accepted-without-password", "[%s] %s %s over %s with %s password got past the password check (answered %s)" % (
                             name, p["proto"], p["route"], p["mode"], "no" if p["cred"] == "none" else "a wrong", p["outcome"])))
